@@ -71,6 +71,18 @@ CHECKS = {
    technique="exhaustive enumeration of error / non-damping event / elapsed-time histories on the real code in virtual time vs a reference damping automaton; delay-bounded schedule exploration incl. a two-connection race",
    text="Every one of 46 protocol-error kinds alone and after an earlier error with timings {asap, 299 s, 301 s}, all histories up to length 4 (quick) / 5 (thorough) over a reduced alphabet with non-damping events (Cease, FIN, DeletePeer+AddPeer), chains of 5-8 errors (doubling, cap, amnesia), active and passive; the hold-down is measured by the absence/presence of dial attempts and by inbound probes 1 ns after the error, mid-way and 1 ns before release, and compared with the reference automaton. Schedules: single-error histories and a protocol error racing with the other connection becoming Established (finds D15, recorded as known finding).",
    note="trusted: vinstr/vrt virtual clock; refDamp automaton (20 lines)"),
+ "C13": dict(level="exploration", design="4/C13",
+   technique="exhaustive enumeration of the (peer set, peer state, source, destination) grid on the real server over the virtual network; delay-bounded schedule exploration for the configured source",
+   text="384 cells: 4 peer sets x 10 states of the peer at arrival x 4 sources x 3 destinations (three listeners incl. a wildcard), each judged against the admission predicate of the property: OPEN received iff admissible, otherwise EOF with zero bytes written, no callback for it, and the existing session still delivers a probe UPDATE.",
+   note="trusted: vinstr/vrt/vnet (real net.TCPAddr endpoints)"),
+ "C20": dict(level="model_checking", design="4/C20",
+   technique="exhaustive validation grid and operation sequences vs a reference map; stateless model checking of concurrent registry clients with linearizability checking (porcupine) of every explored history",
+   text="28 800 configurations against the rejection predicate; all operation sequences up to length 5/6 in three server phases against a map; 2-3 concurrent clients on colliding keys with Serve/Close interleaved: every schedule within the delay bound is executed on the real code and each complete call/return history is checked for linearizability against the map model, with the race detector on; lifecycle scenarios (dial only after Serve, start on add, stop on delete, Serve after Close).",
+   note="trusted: vinstr/vrt, porcupine v1.3.0, refMap"),
+ "C05": dict(level="exploration", design="4/C05",
+   technique="bounded-exhaustive enumeration of hostile byte streams at every FSM state, of byte strings into every exported decoder, and of API call sequences (with delay-bounded schedules) on the real code, each followed by a liveness probe",
+   text="Every type octet / boundary length / marker corruption / truncation+FIN / OPEN body of G02 / short UPDATE body (through a plugin wiring all typed decoders) at each state and direction, followed by a second peer that must still establish, Close and Serve that must return and an empty set of library goroutines; all byte strings up to length 2 (3) over all 256 values into each of 23 exported decoding entry points plus lengths up to 70000; all API sequences up to length 4 (5) incl. repeated Serve under all schedules within delay bound 1.",
+   note="trusted: vinstr/vrt/vnet; panic attribution by stack frames"),
 }
 
 NOT_YET = "check not built yet (framework under construction; see DESIGN.md section 8)"
